@@ -96,3 +96,5 @@ def run(rep, tier):
     rep.floor('spill helper invocations examined', stats.get('spills', 0), 2)
     call_graph_cycles(rep)
     rule_calls_are_requests(rep)
+    from .. import controls
+    controls.route_controls(rep)
